@@ -121,24 +121,26 @@ func (g *GlobalTransactionManager) Commit(ctx context.Context, gtr *GlobalTransa
 }
 
 // commitRefusal tells whether the coordinator's reply to a global commit is something else than an
-// acknowledgement: the reply says the transaction is being or has been rolled back (it timed out, say) or that
-// the commit failed, or
-// its result code is Failed and its status does not say that the commit has been decided all the same.
+// acknowledgement. An acknowledgement says that the commit is decided: Committing, CommitRetrying,
+// AsyncCommitting or Committed, whatever the result code. Anything else is not one: a status that says the
+// transaction is being or has been rolled back (it timed out, say) or that the commit failed; and the statuses
+// that say nothing about a commit - Begin, UnKnown, and Finished, which the coordinator answers when it no longer
+// knows the transaction: it may have committed it, or rolled it back after a timeout.
 func commitRefusal(resp message.GlobalCommitResponse) error {
 	switch resp.GlobalStatus {
+	case message.GlobalStatusCommitting, message.GlobalStatusCommitRetrying, message.GlobalStatusAsyncCommitting,
+		message.GlobalStatusCommitted:
+		return nil
 	case message.GlobalStatusRollbacking, message.GlobalStatusRollbackRetrying, message.GlobalStatusRollbacked,
 		message.GlobalStatusRollbackFailed, message.GlobalStatusTimeoutRollbacking,
 		message.GlobalStatusTimeoutRollbackRetrying, message.GlobalStatusTimeoutRollbacked,
 		message.GlobalStatusTimeoutRollbackFailed, message.GlobalStatusCommitFailed:
 		return fmt.Errorf("global commit answered with status %d (not committed): %s", resp.GlobalStatus, resp.Msg)
-	case message.GlobalStatusCommitting, message.GlobalStatusCommitRetrying, message.GlobalStatusAsyncCommitting,
-		message.GlobalStatusCommitted:
-		return nil
 	}
 	if resp.ResultCode == message.ResultCodeFailed {
 		return fmt.Errorf("global commit refused by the coordinator, status %d: %s", resp.GlobalStatus, resp.Msg)
 	}
-	return nil
+	return fmt.Errorf("global commit answered with status %d, which does not say that the transaction is committed: %s", resp.GlobalStatus, resp.Msg)
 }
 
 // Rollback the global transaction.
